@@ -12,7 +12,11 @@ def dense_val(tag, ty):
     if tag in ("0", "1", "2", "3", "4"): return b + int(tag)
     if tag == "m1": return b - 1
     if tag.startswith("lo"): return b + int(tag[2:]) - far
-    if tag.startswith("hi"): return b + int(tag[2:]) + far
+    if tag.startswith("hi"):
+        v = b + int(tag[2:]) + far
+        if ty == "i32d" and v > 2147483647:
+            v -= 4294967296          # stays an Int32 that matches no literal (bases near the top of the range)
+        return v
     return None
 
 
